@@ -83,6 +83,43 @@ class RecTransport:
     def get_extra_info(self, name: str, default: Any = None) -> Any:
         return default
 
+    # the rest of the asyncio.Transport surface a protocol may legitimately use (flow control, reading control): accepted and recorded,
+    # so that library code calling them runs instead of crashing the harness
+    def set_write_buffer_limits(self, high: Any = None, low: Any = None) -> None:
+        self.write_limits = (low, high)
+
+    def get_write_buffer_limits(self) -> tuple[int, int]:
+        low, high = getattr(self, "write_limits", (None, None))
+        high = 65536 if high is None else high
+        return (high // 4 if low is None else low, high)
+
+    def get_write_buffer_size(self) -> int:
+        return 0        # this transport "sends" at once: nothing is ever queued
+
+    def pause_reading(self) -> None:
+        self.reading_paused = True
+
+    def resume_reading(self) -> None:
+        self.reading_paused = False
+
+    def is_reading(self) -> bool:
+        return not getattr(self, "reading_paused", False) and not self.closing
+
+    def can_write_eof(self) -> bool:
+        return True
+
+    def write_eof(self) -> None:
+        self.wrote_eof = True
+
+    def writelines(self, list_of_data: Any) -> None:
+        self.write(b"".join(bytes(x) for x in list_of_data))
+
+    def get_protocol(self) -> Any:
+        return getattr(self, "protocol", None)
+
+    def set_protocol(self, protocol: Any) -> None:
+        self.protocol = protocol
+
 
 class RecConn:
     """Stands in for APIConnection at the helper boundary."""
